@@ -27,6 +27,27 @@ def run():
             # every ASCII character incl. all control characters, somewhere
             v['content'] = ''.join(chr(x) for x in range(i * 4, min(128, i * 4 + 4))) + v['content']
         evs.append(v)
+    # large contents and tag strings: a multi-byte character straddling every power-of-two offset a block-wise hasher or
+    # escaper could cut at (512 .. 65536), texts of only 2-, 3- and 4-byte characters longer than those blocks, an
+    # escape-needing character right at the boundary
+    big = []
+    for B in (512, 1024, 4096, 8192, 16384, 32768, 65536):
+        if c.tier == 'quick' and B not in (4096, 16384, 65536):
+            continue
+        for ch in ('\u00e9', '\u20ac', '\U0001f600', '\n', '"'):
+            for back in (1, 2, 3):
+                big.append('a' * (B - back) + ch + 'z' * 5)
+        big.append('\u3042' * (B // 3 + 7))
+        big.append('z' + '\U0001f600' * (B // 4 + 3))
+    for k, txt in enumerate(big):
+        v = jsongen.rand_event_values(rng)
+        if k % 4 == 3 and len(txt.encode()) < 60000:
+            v['tags'] = [['t', txt]] + v['tags'][:1]
+        else:
+            v['content'] = txt
+            if len(txt.encode()) > 60000:
+                v['tags'] = v['tags'][:1]
+        evs.append(v)
     lines = ['SGN %s %d %d %s %s' % (SK, v['kind'], v['created_at'], tags_tok([[s.encode() for s in t] for t in v['tags']]), hx(v['content'].encode()))
              for v in evs]
     w = c.worker.run(lines)
